@@ -764,7 +764,11 @@ class SV(_NPScalarMixin):
             return hash(concretize_int(e))
         if e.sort() == z3.BoolSort():
             return hash(decide(e))
-        raise Unsupported("hashing a symbolic real/string (use concrete keys with symbolic membership)")
+        if e.sort() == z3.StringSort():
+            # constant hash: look-ups go through __eq__ (forks). Sound only while every key of the container is a
+            # symbolic string (C18 label items); mixing with concrete str keys is not supported.
+            return 0
+        raise Unsupported("hashing a symbolic real (use concrete keys with symbolic membership)")
 
     def __neg__(self):
         return box(r_neg(self.e))
